@@ -1,5 +1,6 @@
 (* driver around the extracted WAL model; commands mirror harness/h_wal.c where both sides answer:
-     wal <dir> <crc>      recovery step alone on <dir>/db + <dir>/db-wal (model: Replay.recover mode 1)
+     wal <dir> <crc>      recovery step alone on <dir>/db + <dir>/db-wal (model: Proto.recover_open = Replay.recover mode 1
+                          under the options <crc> of the recovering process)
      chk <dir> <crc>      model only: parse the intact log, encode back, wf_log, crc_ok, savepoint offsets
      scan <dir>           model only: fpos rpos *)
 let zb = Array.init 256 z_of_int
@@ -32,6 +33,7 @@ let fnv ops =
       done) [a; b; c]) ops;
   Printf.sprintf "%016Lx" !h
 let vs = function VOk -> "0" | VCorrupt -> "CORRUPTED_WAL" | VFault -> "FAULT"
+let cfg_of crc = { c_bufsz = z_of_int ((if crc land 2 <> 0 then 4096 else 8 * 1024 * 1024) - 12); c_ccrc = crc land 1 = 1 }
 let handle = function
   | ["wal"; dir; crc; "ops"] ->
     (* decoding half only (Replay.replay_ops): verdict and applied-record trace *)
@@ -42,8 +44,9 @@ let handle = function
       (if v = VOk then 0 else String.length wal)
   | ["wal"; dir; crc] ->
     let wal = read_file (dir ^ "/db-wal") and main = read_file (dir ^ "/db") in
-    let ccrc = (int_of_string crc) land 1 = 1 in
-    let ((v, m), ops) = recover ccrc (z_of_int 1) Z0 (zlist_of_string wal) (zlist_of_string main) in
+    (* <crc> = option flags of the RECOVERING process (harness/h_wal.c mkopts: 1 checksums, 2 small log buffer);
+       Proto.recover_open takes the whole configuration and does not read the buffer size *)
+    let ((v, m), ops) = recover_open (cfg_of (int_of_string crc)) (zlist_of_string wal) (zlist_of_string main) in
     Printf.sprintf "wal exit=0 rc=%s applied=%d:%s main=%d:%08x walsz=%d" (vs v) (List.length ops) (fnv ops)
       (List.length m) (zcrc_of_zlist m) (if v = VOk then 0 else String.length wal)
   | ["chk"; dir; crc] ->
